@@ -20,19 +20,19 @@ EXTENDS Replies, Extract, Json, IOUtils, CSV
 
 Trace == ndJsonDeserialize(IOEnv.VERIF_TRACE)
 VARIABLES l, x, nmsg, hdr, toReport, toWriter, cur, pend, cbQ, wireQ, pser, issued, written, outstanding,
-          matched, expectRet, returned, activeCb, diverged, bad
+          matched, expectRet, returned, activeCb, stopping, diverged, bad
 vars == <<l, x, nmsg, hdr, toReport, toWriter, cur, pend, cbQ, wireQ, pser, issued, written, outstanding,
-          matched, expectRet, returned, activeCb, diverged, bad>>
+          matched, expectRet, returned, activeCb, stopping, diverged, bad>>
 
 None == [kind |-> "none"]
 Fresh == /\ x = InitX /\ nmsg = 0 /\ hdr = None /\ toReport = <<>> /\ toWriter = <<>> /\ cur = None /\ pend = "none"
          /\ cbQ = <<>> /\ wireQ = <<>> /\ pser = 0 /\ issued = <<>> /\ written = <<>> /\ outstanding = <<>>
-         /\ matched = <<>> /\ expectRet = <<>> /\ returned = {} /\ activeCb = {} /\ diverged = FALSE
+         /\ matched = <<>> /\ expectRet = <<>> /\ returned = {} /\ activeCb = {} /\ stopping = FALSE /\ diverged = FALSE
 Init == l = 1 /\ Fresh /\ bad = <<>>
 E == Trace[l]
 Flag(ok, what) == IF ok \/ diverged THEN bad ELSE Append(bad, [l |-> l, c |-> E.c, what |-> what])
 Same == UNCHANGED <<x, nmsg, hdr, toReport, toWriter, cur, pend, cbQ, wireQ, pser, issued, written, outstanding,
-                    matched, expectRet, returned, activeCb>>
+                    matched, expectRet, returned, activeCb, stopping>>
 Fail(what) == bad' = Flag(FALSE, what) /\ diverged' = TRUE /\ Same
 Ok == bad' = bad /\ diverged' = diverged
 
@@ -57,7 +57,7 @@ AsM(o, n) == [n |-> n, id |-> o.id, ver |-> o.ver, phone |-> o.phone, digits |->
 Reset == /\ E.ev = "reset" /\ bad' = bad
          /\ x' = InitX /\ nmsg' = 0 /\ hdr' = None /\ toReport' = <<>> /\ toWriter' = <<>> /\ cur' = None /\ pend' = "none"
          /\ cbQ' = <<>> /\ wireQ' = <<>> /\ pser' = 0 /\ issued' = <<>> /\ written' = <<>> /\ outstanding' = <<>>
-         /\ matched' = <<>> /\ expectRet' = <<>> /\ returned' = {} /\ activeCb' = {} /\ diverged' = FALSE
+         /\ matched' = <<>> /\ expectRet' = <<>> /\ returned' = {} /\ activeCb' = {} /\ stopping' = FALSE /\ diverged' = FALSE
 Send == /\ E.ev = "send"
         /\ LET r  == Feed(x, E.bytes)
                os == Mat([i \in 1..Len(r.out) |-> AsM(r.out[i], nmsg + i)])
@@ -67,7 +67,7 @@ Send == /\ E.ev = "send"
               /\ toReport' = toReport \o rp
               /\ toWriter' = toWriter \o tw          \* msgChan order = stream order (parts included, unreported)
               /\ hdr' = IF hdr.kind = "none" /\ Len(tw) > 0 THEN tw[1] ELSE hdr
-              /\ UNCHANGED <<cur, pend, cbQ, wireQ, pser, issued, written, outstanding, matched, expectRet, returned, activeCb>>
+              /\ UNCHANGED <<cur, pend, cbQ, wireQ, pser, issued, written, outstanding, matched, expectRet, returned, activeCb, stopping>>
               /\ Ok
 \* reader callbacks: the next extracted message, with its own content; then it is handed to the writer
 ReadCb == /\ E.ev \in {"readcb", "unsupported"}
@@ -76,7 +76,7 @@ ReadCb == /\ E.ev \in {"readcb", "unsupported"}
                   IF ~(Expect(o) = E.ev /\ o.id = E.id /\ o.serial = E.serial /\ Mat(o.body) = Mat(E.body) /\ o.digits = E.digits)
                   THEN Fail("ReadCbMatch")
                   ELSE /\ toReport' = Tail(toReport) /\ Ok
-                       /\ UNCHANGED <<x, nmsg, hdr, toWriter, cur, pend, cbQ, wireQ, pser, issued, written, outstanding, matched, expectRet, returned, activeCb>>
+                       /\ UNCHANGED <<x, nmsg, hdr, toWriter, cur, pend, cbQ, wireQ, pser, issued, written, outstanding, matched, expectRet, returned, activeCb, stopping>>
 \* msgChan: everything supported goes to the writer in stream order (parts included)
 \* (modelled at dequeue: the writer's w_msg names the message; it must be the next one of the stream)
 WMsg == /\ E.ev = "w_msg"
@@ -86,7 +86,7 @@ WMsg == /\ E.ev = "w_msg"
                         IF ~(o.id = E.id /\ o.serial = E.serial) THEN Fail("MsgChanOrder")
                         ELSE IF \E i \in 1..Len(toReport) : toReport[i].n = o.n THEN Fail("HandledBeforeReadCallback")
                         ELSE /\ toWriter' = Tail(toWriter) /\ cur' = o /\ pend' = Decide(o) /\ Ok
-                             /\ UNCHANGED <<x, nmsg, hdr, toReport, cbQ, wireQ, pser, issued, written, outstanding, matched, expectRet, returned, activeCb>>
+                             /\ UNCHANGED <<x, nmsg, hdr, toReport, cbQ, wireQ, pser, issued, written, outstanding, matched, expectRet, returned, activeCb, stopping>>
 ReplyBegin == /\ E.ev = "reply_begin"
               /\ IF ~(pend = "reply" /\ cur.serial = E.serial) THEN Fail("ReplyUnexpected")
                  ELSE LET fr == ReplyFrame(cur, pser) has == ReplyFor(cur).has IN   \* ~has: body refused (0x0102/2019 too short): logged, nothing written
@@ -94,26 +94,26 @@ ReplyBegin == /\ E.ev = "reply_begin"
                       /\ wireQ' = (IF has THEN Append(wireQ, fr) ELSE wireQ)
                       /\ pser' = (IF has THEN (pser + 1) % 65536 ELSE pser)
                       /\ pend' = "none" /\ Ok
-                      /\ UNCHANGED <<x, nmsg, hdr, toReport, toWriter, cur, issued, written, outstanding, matched, expectRet, returned, activeCb>>
+                      /\ UNCHANGED <<x, nmsg, hdr, toReport, toWriter, cur, issued, written, outstanding, matched, expectRet, returned, activeCb, stopping>>
 WriteCb == /\ E.ev = "writecb"
            /\ IF E.active
               THEN (IF E.pseq \notin activeCb THEN Fail("ActiveCallbackUnexpected")
                     ELSE /\ activeCb' = activeCb \ {E.pseq} /\ Ok
-                         /\ UNCHANGED <<x, nmsg, hdr, toReport, toWriter, cur, pend, cbQ, wireQ, pser, issued, written, outstanding, matched, expectRet, returned>>)
+                         /\ UNCHANGED <<x, nmsg, hdr, toReport, toWriter, cur, pend, cbQ, wireQ, pser, issued, written, outstanding, matched, expectRet, returned, stopping>>)
               ELSE (IF cbQ = <<>> THEN Fail("WriteCallbackUnexpected")
                     ELSE IF Mat(Head(cbQ)) # Mat(E.data) THEN Fail("WriteCallbackBytes")
                     ELSE /\ cbQ' = Tail(cbQ) /\ Ok
-                         /\ UNCHANGED <<x, nmsg, hdr, toReport, toWriter, cur, pend, wireQ, pser, issued, written, outstanding, matched, expectRet, returned, activeCb>>)
+                         /\ UNCHANGED <<x, nmsg, hdr, toReport, toWriter, cur, pend, wireQ, pser, issued, written, outstanding, matched, expectRet, returned, activeCb, stopping>>)
 Recv == /\ E.ev = "recv"
         /\ IF wireQ = <<>> THEN Fail("FrameUnexpected")
            ELSE IF Mat(Head(wireQ)) # Mat(E.bytes) THEN Fail("FrameBytes")
            ELSE /\ wireQ' = Tail(wireQ) /\ Ok
-                /\ UNCHANGED <<x, nmsg, hdr, toReport, toWriter, cur, pend, cbQ, pser, issued, written, outstanding, matched, expectRet, returned, activeCb>>
+                /\ UNCHANGED <<x, nmsg, hdr, toReport, toWriter, cur, pend, cbQ, pser, issued, written, outstanding, matched, expectRet, returned, activeCb, stopping>>
 \* ---- platform commands (C12)
 Ext2(fn, k, v) == [y \in DOMAIN fn \cup {k} |-> IF y = k THEN v ELSE fn[y]]
 CmdCall == /\ E.ev = "cmd_call"
            /\ issued' = Ext2(issued, E.k, [cmd |-> E.cmd, body |-> E.body, tmo |-> E.tmo]) /\ Ok
-           /\ UNCHANGED <<x, nmsg, hdr, toReport, toWriter, cur, pend, cbQ, wireQ, pser, written, outstanding, matched, expectRet, returned, activeCb>>
+           /\ UNCHANGED <<x, nmsg, hdr, toReport, toWriter, cur, pend, cbQ, wireQ, pser, written, outstanding, matched, expectRet, returned, activeCb, stopping>>
 CmdWritten == /\ E.ev = "cmd_written"
               /\ IF pend # "none" THEN Fail("WriterSkipped_" \o pend)
                  ELSE IF ~(E.k \in DOMAIN issued /\ E.k \notin DOMAIN written) THEN Fail("CommandWrittenTwiceOrUnknown")
@@ -122,11 +122,11 @@ CmdWritten == /\ E.ev = "cmd_written"
                  ELSE /\ wireQ' = Append(wireQ, EncodeReply(hdr, issued[E.k].cmd, pser, issued[E.k].body))
                       /\ written' = Ext2(written, E.k, pser) /\ outstanding' = Ext2(outstanding, pser, E.k)
                       /\ pser' = (pser + 1) % 65536 /\ Ok
-                      /\ UNCHANGED <<x, nmsg, hdr, toReport, toWriter, cur, pend, cbQ, issued, matched, expectRet, returned, activeCb>>
+                      /\ UNCHANGED <<x, nmsg, hdr, toReport, toWriter, cur, pend, cbQ, issued, matched, expectRet, returned, activeCb, stopping>>
 RespMatch == /\ E.ev = "resp_match"
              /\ IF ~(pend = "match" /\ Echo(cur) = E.seq) THEN Fail("ResponseMatchedToWrongCommand")
                 ELSE /\ matched' = Ext2(matched, E.seq, cur) /\ pend' = "none" /\ Ok
-                     /\ UNCHANGED <<x, nmsg, hdr, toReport, toWriter, cur, cbQ, wireQ, pser, issued, written, outstanding, expectRet, returned, activeCb>>
+                     /\ UNCHANGED <<x, nmsg, hdr, toReport, toWriter, cur, cbQ, wireQ, pser, issued, written, outstanding, expectRet, returned, activeCb, stopping>>
 WComplete == /\ E.ev = "w_complete"
              /\ IF pend # "none" THEN Fail("WriterSkipped_" \o pend)
                 ELSE IF E.seq \notin DOMAIN outstanding
@@ -137,20 +137,25 @@ WComplete == /\ E.ev = "w_complete"
                                            echo |-> IF E.kind = "resp" THEN Echo(matched[E.seq]) ELSE -1])
                      /\ outstanding' = [s \in DOMAIN outstanding \ {E.seq} |-> outstanding[s]]
                      /\ activeCb' = activeCb \cup {E.seq} /\ Ok
-                     /\ UNCHANGED <<x, nmsg, hdr, toReport, toWriter, cur, pend, cbQ, wireQ, pser, issued, written, matched, returned>>
+                     /\ UNCHANGED <<x, nmsg, hdr, toReport, toWriter, cur, pend, cbQ, wireQ, pser, issued, written, matched, returned, stopping>>
 CmdRet == /\ E.ev = "cmd_ret"
           /\ IF E.k \in returned \/ E.k \notin DOMAIN issued THEN Fail("CallerReturnedTwice")
              ELSE IF E.k \notin DOMAIN expectRet
-                  THEN (IF E.kind = "notexist" /\ E.k \notin DOMAIN written
+                  THEN (IF \/ (E.kind = "notexist" /\ E.k \notin DOMAIN written)
+                           \/ (E.kind = "busy" /\ E.k \notin DOMAIN written)          \* the terminal's command queue was full
+                           \/ (E.kind = "closed" /\ stopping)                         \* failed by the stopping writer
                         THEN /\ returned' = returned \cup {E.k} /\ Ok
-                             /\ UNCHANGED <<x, nmsg, hdr, toReport, toWriter, cur, pend, cbQ, wireQ, pser, issued, written, outstanding, matched, expectRet, activeCb>>
+                             /\ UNCHANGED <<x, nmsg, hdr, toReport, toWriter, cur, pend, cbQ, wireQ, pser, issued, written, outstanding, matched, expectRet, activeCb, stopping>>
                         ELSE Fail("ReturnWithoutCompletion"))
              ELSE LET r == expectRet[E.k] IN
                   IF r.kind # E.kind THEN Fail("ReturnKind")
                   ELSE IF E.kind = "resp" /\ ~(E.echo = written[E.k] /\ r.echo = written[E.k]) THEN Fail("OwnResponse")
                   ELSE IF E.kind = "timeout" /\ ~(E.ms >= issued[E.k].tmo - 20 /\ E.ms <= issued[E.k].tmo + 2500) THEN Fail("TimeoutTiming")
                   ELSE /\ returned' = returned \cup {E.k} /\ Ok
-                       /\ UNCHANGED <<x, nmsg, hdr, toReport, toWriter, cur, pend, cbQ, wireQ, pser, issued, written, outstanding, matched, expectRet, activeCb>>
+                       /\ UNCHANGED <<x, nmsg, hdr, toReport, toWriter, cur, pend, cbQ, wireQ, pser, issued, written, outstanding, matched, expectRet, activeCb, stopping>>
+\* the writer saw stopChan closed: from now on it answers outstanding and queued commands with an error
+WStop == /\ E.ev = "w_stop" /\ stopping' = TRUE /\ Ok
+         /\ UNCHANGED <<x, nmsg, hdr, toReport, toWriter, cur, pend, cbQ, wireQ, pser, issued, written, outstanding, matched, expectRet, returned, activeCb>>
 \* the harness waited for quiescence: nothing may be left anywhere
 End == /\ E.ev = "end"
        /\ LET what == IF toReport # <<>> THEN "MessageNeverReported"
@@ -163,11 +168,11 @@ End == /\ E.ev = "end"
           IN bad' = Flag(what = "ok", what) /\ diverged' = (diverged \/ what # "ok") /\ Same
 \* events the specification does not constrain here (registry, teardown, timers: Trace_Registry / C13)
 Other == /\ E.ev \notin {"reset", "send", "readcb", "unsupported", "w_msg", "reply_begin", "writecb", "recv",
-                         "cmd_call", "cmd_written", "resp_match", "w_complete", "cmd_ret", "end"}
+                         "cmd_call", "cmd_written", "resp_match", "w_complete", "cmd_ret", "end", "w_stop"}
          /\ Ok /\ Same
 
 Step == Reset \/ Send \/ ReadCb \/ WMsg \/ ReplyBegin \/ WriteCb \/ Recv \/ CmdCall \/ CmdWritten \/ RespMatch \/ WComplete
-        \/ CmdRet \/ End \/ Other
+        \/ CmdRet \/ End \/ WStop \/ Other
 Next == l <= Len(Trace) /\ l' = l + 1 /\ Step
 Done == l = Len(Trace) + 1
 Report == Done => CSVWrite("%1$s", <<ToJson([bad |-> bad, n |-> Len(Trace)])>>, IOEnv.VERIF_OUT)
